@@ -495,7 +495,7 @@ func c19FullSyncOnStart(c *ctx) {
 			return n == len(refs)
 		}
 		waitFor := func(refs []blob.Ref) bool {
-			for i := 0; i < 400; i++ {
+			for i := 0; i < 1500; i++ {
 				if has(refs) {
 					return true
 				}
@@ -507,7 +507,7 @@ func c19FullSyncOnStart(c *ctx) {
 		c.rep.SpecChecks++
 		c.count("scenarios", "fullSyncOnStart")
 		if !waitFor(old) {
-			c.violation(-1, "c19-fullsync-not-delivered", fmt.Sprintf("fullSyncOnStart: the %d blobs the source held at start-up are not all at the destination after 4 s", len(old)), nil)
+			c.violation(-1, "c19-fullsync-not-delivered", fmt.Sprintf("fullSyncOnStart: the %d blobs the source held at start-up are not all at the destination after 15 s", len(old)), nil)
 			continue
 		}
 		var fresh []blob.Ref
@@ -516,7 +516,7 @@ func c19FullSyncOnStart(c *ctx) {
 		}
 		c.rep.SpecChecks++
 		if !waitFor(fresh) {
-			c.violation(-1, "c19-not-delivered-after-fullsync", fmt.Sprintf("fullSyncOnStart: %d uploads acknowledged after the full sync of %d blobs are not at the destination after 4 s (the sync loop does not run)", len(fresh), len(old)), nil)
+			c.violation(-1, "c19-not-delivered-after-fullsync", fmt.Sprintf("fullSyncOnStart: %d uploads acknowledged after the full sync of %d blobs are not at the destination after 15 s (the sync loop does not run)", len(fresh), len(old)), nil)
 		}
 	}
 }
